@@ -657,10 +657,9 @@ pub fn generate(tier: &str, seed: u64) -> Vec<Rec> {
     let mut rng = Rng::new(seed);
     let mut out = Vec::new();
     const PAIRS: usize = 40;
-    let n_eval = if thorough { 150 } else { 15 };
+    let n_eval = if thorough { 250 } else { 60 };
     let structured = structured_pairs(tier);
     for op in 1..=11i64 {
-        out.push(Rec::new(13200 + op, vec![], vec![]));
         let mut it = structured.iter();
         for _ in 0..n_eval {
             let mut al = Vec::with_capacity(PAIRS);
@@ -675,11 +674,15 @@ pub fn generate(tier: &str, seed: u64) -> Vec<Rec> {
             }
             out.push(Rec::new(13000 + op, vec![], vec![al, bl]));
         }
-        let bulks: &[i128] = if thorough { &[1_000_000; 5] } else { &[200_000] };
+        let bulks: &[i128] = if thorough { &[2_000_000; 5] } else { &[1_000_000] };
         for n in bulks {
             let sub_seed = rng.next();
             out.push(Rec::new(13100 + op, vec![*n, sub_seed as i128], vec![]));
         }
+    }
+    // table dumps last: a failing eval record (concrete a, b) is reported before a failing table record
+    for op in 1..=11i64 {
+        out.push(Rec::new(13200 + op, vec![], vec![]));
     }
     out
 }
